@@ -88,7 +88,7 @@ CHECKS = {
         "groups": [
             {"name": "c04", "run": "^TestC04_", "shards": {"quick": 8, "thorough": 16},
              "timeout": {"quick": 900, "thorough": 3000},
-             "checks": ["c04-adapter-enum", "c04-adapter-history"]},
+             "checks": ["c04-adapter-enum", "c04-adapter-history", "c04-concurrent"]},
         ],
     },
     "C08": {
